@@ -150,12 +150,13 @@ def main():
     reps = json.loads(sh([CELLRUN, '-capture', os.path.join(REPO_DIR, 'models')], env=GOENV))
     n_closures = 0
     unrecognised = []          # (model, file, problems)
-    gstats = {'functions_analysed': len(reps), 'recognised': 0, 'launch_forms': {}, 'callee_kinds': {}, 'join_kinds': {},
+    gstats = {'functions_analysed': len(reps), 'recognised': 0, 'observation_only_shared_state': 0, 'launch_forms': {}, 'callee_kinds': {}, 'join_kinds': {},
               'completion_channels': set(), 'shared_read_only_captured': set(), 'written_captured': set()}
     for r in reps:
         c.count('structure:' + r['file'], nontrivial=True)
         n_closures += r['go_stmts']
         gstats['recognised'] += bool(r['recognised'])
+        gstats['observation_only_shared_state'] += len(r.get('observation_only') or [])
         for k, f in (('launch_forms', 'launch_form'), ('callee_kinds', 'callee'), ('join_kinds', 'join')):
             gstats[k][r.get(f) or '?'] = gstats[k].get(r.get(f) or '?', 0) + 1
         gstats['completion_channels'].add(r.get('channel') or '?')
